@@ -354,8 +354,13 @@ void ThreadPool::resizeLocked(ssize_t sn) {
     if (n > rings_.size()) {
       rings_.grow_by(n - rings_.size());
     }
-    numRings_.store(n, std::memory_order_release);
-    DISPENSO_VERIF_HOOK("pool.rings", this, n, 0);
+    // The published ring count never shrinks: a producer that read the previous count may still
+    // push to any ring below it after this resize has drained the rings, and task-set waiters only
+    // poll rings below numRings_. Rings without an owning thread are drained by those waiters.
+    if (n > numRings_.load(std::memory_order_relaxed)) {
+      numRings_.store(n, std::memory_order_release);
+    }
+    DISPENSO_VERIF_HOOK("pool.rings", this, numRings_.load(std::memory_order_relaxed), 0);
 
     size_t newNumSteal = (n + stealRingSharing_ - 1) / stealRingSharing_;
     if (newNumSteal > stealRings_.size()) {
